@@ -72,6 +72,7 @@ class CacheWorld(object):
     self.query_conn = None
     self.ndrains = 0
     self.final_phase = False
+    self.db_seq = {}
 
   # ------------------------------------------------------------------ set-up
   def install(self):
@@ -83,6 +84,7 @@ class CacheWorld(object):
       s.trace_file(w.writer_mod.__file__, 'w')
     s.finish = self.finish
     s.p_lock = self.plan.get('p_lock')
+    s.file_p = dict(self.plan.get('file_p') or {})
     lock = self.cache.lock
     lock.on_acquire = self.on_acquire
     lock.on_release = self.on_release
@@ -123,11 +125,12 @@ class CacheWorld(object):
         return d
       s.sleep_hook = hook
     self.r.thread_joiner = self.join_threads
+    self.r.waker = lambda: s.wake('R')
     # schema versions in force at boot
     files = self.w.cfg.get('files', {})
-    self.schema_versions.append((s.now, files.get('storage-schemas.conf',
-                                                  "[default]\npattern = .*\nretentions = 60:1440\n")))
-    self.agg_versions.append((s.now, files.get('storage-aggregation.conf')))
+    self.schema_versions.append((0, files.get('storage-schemas.conf',
+                                              "[default]\npattern = .*\nretentions = 60:1440\n")))
+    self.agg_versions.append((0, files.get('storage-aggregation.conf')))
     if getattr(w, 'writer_mod', None) is not None:
       wm = w.writer_mod
       real_rs, real_ra = wm.reloadStorageSchemas, wm.reloadAggregationSchemas
@@ -151,8 +154,8 @@ class CacheWorld(object):
       text = open(p, encoding='utf-8').read()
     except IOError:
       text = None
-    versions.append((self.s.now, text))
     self.ctx.log.add('reload', name)
+    versions.append((self.ctx.log.n, text))
     self.ctx.probe('schema_reload')
 
   def log_observer(self, event):
@@ -405,6 +408,7 @@ class CacheWorld(object):
 
   def on_db_call(self, rec):
     self.whist.append(('db', rec))
+    self.db_seq[rec[0]] = self.ctx.log.n
 
   # ------------------------------------------------------------ connections
   def connect(self, kind):
@@ -479,8 +483,16 @@ class CacheWorld(object):
       got = {metric: dict(resp.get('datapoints', []))}
     else:
       got = {m: dict(v) for m, v in resp.get('datapointsByMetric', {}).items()}
+    # a drain by the other thread that holds the lock right now has taken effect in
+    # the real cache at some line of its critical section but steps the model only
+    # at its linearisation point: its metric may already read as absent
+    inflight = any(o is not None and o.kind in ('drain', 'pop') and t2 != self.s.cur and
+                   self.cache.lock.owner == t2 for t2, o in self.curop.items())
     for m, val in got.items():
       ok = self.model.values_between(m, s0, s1)
+      if inflight and val == {}:
+        self.ctx.probe('query_during_inflight_drain')
+        continue
       if val not in ok:
         self.ctx.violation('C02', 'query-mismatch', 'cache-query',
                            'query(%r) returned %r; model values during the query: %r' % (m, val, ok))
@@ -821,11 +833,11 @@ class CacheWorld(object):
     for rec in self.w.db.calls:
       if rec[2] != 'create':
         continue
-      idx, t, _, metric, payload, outcome = rec
-      prev_t = 0.0
-      for r2 in self.w.db.calls:
-        if r2[0] < idx:
-          prev_t = r2[1]
+      idx, _t, _, metric, payload, outcome = rec
+      # window in global event order: from the writer's previous backend call
+      # (after which it re-reads the schema lists) to this create call
+      t = self.db_seq.get(idx, 0)
+      prev_t = self.db_seq.get(idx - 1, 0)
       allowed = []
       for versions_s in self.versions_between(self.schema_versions, prev_t, t):
         for versions_a in self.versions_between(self.agg_versions, prev_t, t):
